@@ -8,7 +8,7 @@ is a removing operation.
 """
 from .guards import (Cmp, CallResult, Field, check_guard, call_dominates, ok_block_after,
                      blocks_constructing, prov, op_prov, marker_matches)
-from .lib import op_local, place_local, place_fields, rvalue_places
+from .lib import op_local, place_local, place_fields, rvalue_places, strip_generics
 
 EXPLANATION = (
     "Decides the structural clause of C15: every clause of the statement (argument types, "
@@ -47,10 +47,12 @@ def run(ctx):
     CE = "compiler::CompilationError"
 
     # ---- clause: arguments have exactly the declared types
+    ctm = F.find1(S2C + "references::check_types_match", kind="Fn")
+    CTM = strip_generics(ctm.path)          # the routine under its current name (the anchor survives a rename)
     dom("R15.types", "compile:check_types_match=>compile_invocation", compile_fn,
-        "references::check_types_match", "invocations::compile_invocation")
+        CTM, "invocations::compile_invocation")
     # the two arguments of check_types_match derive from the taken references and the signature
-    for c in compile_fn.calls_to("references::check_types_match"):
+    for c in compile_fn.calls_to(CTM):
         p0, p1 = op_prov(compile_fn, c.args[0], 24), op_prov(compile_fn, c.args[1], 24)
         ok = ("c:get_annotations_after_take_args" in p0) and ("c:param_signatures" in p1)
         ctx.ob("R15.types", "compile:check_types_match:operands", ok,
@@ -145,7 +147,7 @@ def run(ctx):
         ctx.ob("R15.return", "validate_final_annotations:calls:" + callee, len(cs) >= 1 and _result_used(vfa, cs[0]),
                "%s is called and its result returned/propagated" % callee, vfa.where())
     vrp = F.find1(S2C + "annotations::ProgramAnnotations::validate_return_properties")
-    cs = vrp.calls_to("references::check_types_match")
+    cs = vrp.calls_to(CTM)
     ok = False
     if len(cs) == 1:
         p0, p1 = op_prov(vrp, cs[0].args[0]), op_prov(vrp, cs[0].args[1])
